@@ -37,7 +37,7 @@ BOUND = {k: v + "; plus: " + "list names with a dot next to their stem; a user-w
 
 LISTS = ["c", "c1", "d"]
 VARIANTS = ["plain", "filter", "rand", "randseed", "randseedref", "multi", "rank", "or_other", "shared", "search",
-            "multi_or_other", "unused", "fromrepeat", "fromrepeat-filter", "randfalse", "randfalseseed", "randfilter", "multirandfalse", "randseedexpr", "randseedexpr2", "search_rand", "search_multi", "fromrepeat-sibling", "search-after-token", "search-before-token"]
+            "multi_or_other", "unused", "fromrepeat", "fromrepeat-filter", "randfalse", "randfalseseed", "randfilter", "multirandfalse", "randseedexpr", "randseedexpr2", "search_rand", "search_multi", "fromrepeat-sibling", "search-after-token", "search-before-token", "search-nolabel"]
 REJECT_VARS = {"search_rand", "search_multi"}  # a search() list may not be shared with a select that is not using search()
 
 
@@ -217,6 +217,12 @@ def build_lists(case):
         qs.append({"type": "select_multiple c", "name": "s2", "label": "S2", "choice_filter": "y != ''"})
     elif v == "search":
         sel["appearance"] = "search('f')"
+    elif v == "search-nolabel":
+        # a search() select on a list one of whose choices has no label (a warning only): in-line items, that one with an empty label
+        sel["appearance"] = "search('f')"
+        for c_ in choices:
+            if c_["list_name"] == "c" and c_["name"].endswith("_0") and case["lab"] == "plain":
+                c_.pop("label", None)
     elif v == "search-after-token":
         sel["appearance"] = "minimal search('f')"
     elif v == "search-before-token":
@@ -266,7 +272,7 @@ def check_lists(case, wb, out, viol):
     other_lists = set()
     if v in ("or_other", "multi_or_other"):
         other_lists.add("c")
-    searched = {"c"} if v in ("search", "search-after-token", "search-before-token") else set()
+    searched = {"c"} if v in ("search", "search-after-token", "search-before-token", "search-nolabel") else set()
     itx = {}
     for lg, d, texts in obs.itext:
         for tid, vals in texts:
@@ -375,7 +381,7 @@ def check_lists(case, wb, out, viol):
             ok = val is not None and lab is not None and val.get("ref") == "rq" and lab.get("ref") == "rq"
         if not ok:
             viol.append((f"itemset-from-repeat:{v}", f"{[dict(i.attrib) for i in its]}"))
-    elif v in ("search", "search-after-token", "search-before-token"):
+    elif v in ("search", "search-after-token", "search-before-token", "search-nolabel"):
         items = s_el.findall(O.X + "item")
         exp = [c for c in choices if c["list_name"] == "c"]
         got = [(it.find(O.X + "value").text) for it in items]
@@ -388,8 +394,8 @@ def check_lists(case, wb, out, viol):
                 txt = {lg: (itx.get(tid, {}).get(lg, {}).get(None).text if itx.get(tid, {}).get(lg, {}).get(None) is not None else None) for lg in ("en", "fr")}
                 if txt != {"en": c["label::en"], "fr": c["label::fr"]}:
                     viol.append(("search-inline-label-itext", f"{txt}"))
-            elif (lab.text or "") != c["label"]:
-                viol.append(("search-inline-label", f"{lab.text!r} want {c['label']!r}"))
+            elif (lab.text or "") != c.get("label", ""):
+                viol.append(("search-inline-label", f"{lab.text!r} want {c.get('label', '')!r}"))
     else:
         check_itemset(s_el, "c", expns[v], "s")
     if v in ("shared", "multi_or_other"):
